@@ -51,10 +51,15 @@ def _sanitize_attrs_nc(dt: xr.DataTree) -> xr.DataTree:
         for key, attr in node.attrs.items():
             if isinstance(attr, sanitized_types):
                 node.attrs[key] = str(attr)
+            elif _should_desanitize(attr):
+                # a string that only looks like an encoded value: quote it so that it is read back as it is
+                node.attrs[key] = repr(attr)
         for v in node.variables:
             for key, attr in node[v].attrs.items():
                 if isinstance(attr, sanitized_types):
                     node[v].attrs[key] = str(attr)
+                elif _should_desanitize(attr):
+                    node[v].attrs[key] = repr(attr)
     return dt
 
 
@@ -65,6 +70,7 @@ def _should_desanitize(attr: Any) -> bool:
             or (attr.startswith("[") and attr.endswith("]"))
             or (attr in ["True", "False"])
             or (attr == "None")
+            or (len(attr) >= 2 and attr[0] == attr[-1] and attr[0] in "'\"")
         ):
             return True
     return False
